@@ -86,7 +86,7 @@ func readJSON(path string, v interface{}) error {
 	return json.Unmarshal(b, v)
 }
 
-const verifDir = "/verif"
+var verifDir = func() string { if d := os.Getenv("GCV_VERIF_DIR"); d != "" { return d }; return "/verif" }()
 
 func cmdCheck(args []string) {
 	fs := flag.NewFlagSet("check", flag.ExitOnError)
@@ -179,12 +179,24 @@ func runCheck(prop, tier, repo, evdir string, verbose bool) int {
 					continue
 				}
 				mname := k[j+2:]
-				for _, tn := range eng.IfaceImpls[k[1:j]] {
+				impls := eng.IfaceImpls[k[1:j]]
+				if len(impls) == 0 {
+					impls = eng.discoverImpls(ifT) // H4c: refinement jobs for every repository type that implements the interface
+				}
+				for _, tn := range impls {
 					ct := eng.resolveQualifiedType(tn)
 					if ct == nil {
 						continue
 					}
-					m := eng.Prog.LookupMethod(ct, nil, mname)
+					var mpkg *types.Package // H4c: unexported interface methods are looked up in the package of the type
+					if pt, ok := ct.(*types.Pointer); ok {
+						if nt, ok := types.Unalias(pt.Elem()).(*types.Named); ok {
+							mpkg = nt.Obj().Pkg()
+						}
+					} else if nt, ok := types.Unalias(ct).(*types.Named); ok {
+						mpkg = nt.Obj().Pkg()
+					}
+					m := eng.Prog.LookupMethod(ct, mpkg, mname)
 					if m == nil {
 						continue
 					}
@@ -595,4 +607,41 @@ func writeReplay(dir, name string, content map[string]interface{}) string {
 	b, _ := json.MarshalIndent(content, "", " ")
 	os.WriteFile(p, b, 0o644)
 	return p
+}
+
+// discoverImpls (H4c): the named types of the loaded repository packages whose pointer (or value) method set implements
+// the interface; used only to create refinement jobs (it does not make interface CALLS closed-world).
+func (e *Engine) discoverImpls(ifT types.Type) []string {
+	iface, ok := ifT.Underlying().(*types.Interface)
+	if !ok {
+		return nil
+	}
+	var out []string
+	var paths []string
+	for p := range e.Pkgs {
+		paths = append(paths, p)
+	}
+	sort.Strings(paths)
+	for _, pp := range paths {
+		p := e.Pkgs[pp]
+		if p.Types == nil || !strings.HasPrefix(pp, repoModule) {
+			continue
+		}
+		sc := p.Types.Scope()
+		for _, n := range sc.Names() {
+			tn, ok := sc.Lookup(n).(*types.TypeName)
+			if !ok || tn.IsAlias() {
+				continue
+			}
+			if _, isI := tn.Type().Underlying().(*types.Interface); isI {
+				continue
+			}
+			if types.Implements(tn.Type(), iface) {
+				out = append(out, pp+"."+n)
+			} else if types.Implements(types.NewPointer(tn.Type()), iface) {
+				out = append(out, "*"+pp+"."+n)
+			}
+		}
+	}
+	return out
 }
